@@ -33,3 +33,39 @@ Print Assumptions C05_gauss_spectators_init_thermal.
 Theorem C05_gauss_spectators_thermal_loss : forall K (N : Num K) T nb q k (s : st K), same_off [k] s (thermal_loss N T nb q k s).
 Proof. exact @thermal_loss_spectators. Qed.
 Print Assumptions C05_gauss_spectators_thermal_loss.
+
+(* allocation and deletion (GaussianModes.add_mode / del_mode, hand model Base/GaussAlloc.v tied by float correspondence):
+   a new mode is vacuum and uncorrelated with the rest, the old modes keep their state exactly; deleting a mode
+   touches nothing that does not involve it *)
+From SFV Require Import Base.PhaseSpace Base.GaussAlloc C05.GaussAllocProofs.
+Section Alloc.
+Variable K : Type.
+Variables (k0 k1 : K) (kadd kmul ksub : K -> K -> K) (kopp : K -> K).
+Hypothesis Kring : ring_theory k0 k1 kadd kmul ksub kopp (@eq K).
+Notation NK := (GaussAllocProofs.NK K k0 k1 kadd kmul ksub kopp).
+
+Theorem C05_gauss_alloc_old_modes_unchanged : forall s q1 q2 a b, a < nlen s -> b < nlen s ->
+  rcov NK (add_mode NK s) q1 q2 a b = rcov NK s q1 q2 a b /\ rmean NK (add_mode NK s) q1 a = rmean NK s q1 a.
+Proof.
+  intros s q1 q2 a b Ha Hb. split.
+  - exact (add_mode_old_cov K k0 k1 kadd kmul ksub kopp s q1 q2 a b Ha Hb).
+  - exact (add_mode_old_mean K k0 k1 kadd kmul ksub kopp s q1 a Ha).
+Qed.
+
+Theorem C05_gauss_alloc_new_mode_vacuum_uncorrelated : forall s q1 q2,
+  rcov NK (add_mode NK s) q1 q2 (nlen s) (nlen s) = (if Bool.eqb q1 q2 then k1 else k0) /\
+  rmean NK (add_mode NK s) q1 (nlen s) = k0 /\
+  (forall a, a < nlen s -> rcov NK (add_mode NK s) q1 q2 (nlen s) a = k0 /\ rcov NK (add_mode NK s) q1 q2 a (nlen s) = k0).
+Proof.
+  intros s q1 q2. split; [|split].
+  - exact (add_mode_new_block K k0 k1 kadd kmul ksub kopp Kring s q1 q2).
+  - exact (add_mode_new_mean K k0 k1 kadd kmul ksub kopp Kring s q1).
+  - intros a Ha. exact (add_mode_new_cross K k0 k1 kadd kmul ksub kopp Kring s q1 q2 a Ha).
+Qed.
+
+Theorem C05_gauss_delete_spectators : forall k s, same_off [k] s (del_mode NK k s).
+Proof. exact (del_mode_spectators K k0 k1 kadd kmul ksub kopp). Qed.
+End Alloc.
+Print Assumptions C05_gauss_alloc_old_modes_unchanged.
+Print Assumptions C05_gauss_alloc_new_mode_vacuum_uncorrelated.
+Print Assumptions C05_gauss_delete_spectators.
